@@ -243,6 +243,25 @@ func runC15(c *core.Ctx, o Options) {
 	checkEventPool(c, "U5")
 	// U3 premise: the close timeout armed by Stop is the configured one — the settings the Logon handler installs keep CloseTimeout
 	s.checkSettingsPreserved("U3")
+	// … and nothing else rewrites it: every store to LogonSettings.CloseTimeout stores the CloseTimeout of other settings
+	nCT := 0
+	for _, fn := range s.allFuncs() {
+		an.AllInstrs(fn, func(in ssa.Instruction) {
+			st, ok := in.(*ssa.Store)
+			if !ok {
+				return
+			}
+			fa, ok := st.Addr.(*ssa.FieldAddr)
+			if !ok || an.FieldOf(fa) == nil || an.FieldOf(fa).Name() != "CloseTimeout" || !an.TypeIs(fa.X.Type(), "session", "LogonSettings") {
+				return
+			}
+			nCT++
+			f, _ := an.LoadedField(st.Val)
+			c.Check(f != nil && f.Name() == "CloseTimeout", "U3", an.NameOf(fn), "a store to CloseTimeout copies a configured CloseTimeout", st.Pos(), "x.CloseTimeout ← y.CloseTimeout",
+				"CloseTimeout is set to "+an.Render(st.Val)+": Stop then waits for that long, not for the close timeout the application configured (a configured zero means 'end at once')")
+		})
+	}
+	c.Check(nCT >= 1, "U3", "", "stores to CloseTimeout found", 0, fmt.Sprint(nCT), "no store to LogonSettings.CloseTimeout found (the Logon handler's replacement was confirmed)")
 	c.RuleMin = map[string]int{"M1": 3, "U1": 1, "U2": 1, "U3": 3, "U4": 4, "U5": 3, "U6": 5}
 	c.MinObl = 12
 }
